@@ -193,7 +193,7 @@ Proof.
   - destruct (sent (cx w)) as [k|]; [|exact I]. destruct (echo (cx w)) as [e|]; [|exact I].
     destruct (Nat.eqb (p_hdr p) (tx_hdr (cmds k)) && Nat.eqb (p_src p) (p_src e)); [exact I|].
     destruct (rx_hdr (cmds k)) as [h|]; [|exact I].
-    destruct (Nat.eqb (p_hdr p) h); [apply set_state_inv_plain; auto|exact I].
+    destruct (null_ok (cmds k) p || Nat.eqb (p_hdr p) h); [apply set_state_inv_plain; auto|exact I].
 Qed.
 
 Lemma caller_start_inv w c : Inv w -> Rsat Inv (caller_start cmds w c).
@@ -320,7 +320,7 @@ Qed.
 
 (* ---------------------------------------------------------------- witnesses (computed) *)
 Definition cmd_a (mr : nat) (to : Z) (c : cid) : cmdinfo :=
-  {| prio := 0; max_retries := mr; timeout := to; wfr := false; tx_hdr := 1%nat; rx_hdr := Some 2%nat |}.
+  {| prio := 0; max_retries := mr; timeout := to; wfr := false; tx_hdr := 1%nat; rx_hdr := Some 2%nat; rx_null := None |}.
 Definition silent (n : nat) : wplan := wplan0.
 Definition slow (n : nat) : wplan := {| w_lat := 1000000; w_fail := false; w_echo := None; w_rply := None |}.
 
